@@ -1,26 +1,115 @@
 NOTES = ("One technique decides every claimed property: Kani (CBMC+SAT) executing /repo's own functions symbolically on a staged copy "
          "regenerated from the working tree on each run. Verdicts are bounded (unwind / sizes per harness, listed in the evidence). "
-         "Exit 0 = every harness of the tier discharged (or failing only on findings listed in known_findings.json); exit 1 = a "
-         "counterexample reproduced natively against the real build; exit 2 = not decided (timeout, OOM, staging failure, "
-         "non-reproducing counterexample) - never reported as a pass or as a violation.")
+         "Exit 0 = every harness of the tier discharged (or failing only on findings listed in known_findings.json whose stored witness "
+         "still reproduces natively); exit 1 = a counterexample reproduced natively against the real build; exit 2 = not decided "
+         "(timeout, OOM, staging failure, non-reproducing counterexample) - never reported as a pass or as a violation.")
 
-BUILDING = "check under construction in this session (see DESIGN.md section 3); not yet registered"
+TRUST = ("Trusted: Kani 0.68 MIR->goto translation, CBMC 6.11 + CaDiCaL, the staging substitutions S1-S5 (hash containers -> "
+         "/verif/models/verif_collections, memchr -> linear scan, verbatim text extraction of synchronous pieces of async fns) and the "
+         "stubs listed in the evidence (logging, fmt::format, cpuid, parking_lot slow paths). ")
 
 CLAIMED = {
+    "C01": dict(
+        text="Bounded: argument arithmetic of ONE command for every value of its numeric arguments and of the clock - list index kernels "
+             "(LRANGE/LINDEX/LSET/LTRIM on 0-3 elements, any isize), GETRANGE on 0-3 bytes, SET PX/EX + GET/TTL/PTTL, EXPIRE/PEXPIRE "
+             "NX|XX|GT|LT, active eviction, 'empty collection stops existing', INCRBY/DECRBY through the dispatch - against a reference written "
+             "over i128 from the Redis documentation. Not claimed: sequences of commands, floats, Lua, SCAN, equality with a live Redis.",
+        note=TRUST + "Per-command functions are called through forwarding hooks on an executor with an empty CONFIG table; only the harnesses "
+             "named c01_dispatch_* go through CommandExecutor::execute.",
+    ),
+    "C03": dict(
+        text="Bounded: (1) the two routing functions send every key of 0-3 ASCII bytes to the same shard for shard counts {1,2,3,16,64} "
+             "(decided on the byte streams fed to the hasher); (2) single-key commands are routed by their only key; (3) two-key commands "
+             "that execute whole on one shard are reported per command (known findings). Not claimed: the async fan-out arms, KEYS/SCAN/DBSIZE.",
+        note=TRUST + "DefaultHasher is replaced by a transparent byte-stream recorder under Kani; counterexamples are replayed with the real SipHash.",
+    ),
+    "C04": dict(
+        text="Bounded: the synchronous decision procedures of the connection handler - batch collectors and fast-path parsers (text-extracted) "
+             "return only well-formed frames, consume exactly those frames, leave incomplete input untouched, and whatever a collector consumed "
+             "is admitted by run()'s own conditions for every threshold 1..4; a two-frame stream read in two chunks at 13 cut points decodes to "
+             "the same frames. Not claimed: run()/try_execute_command as async code, write ordering, MULTI state.",
+        note=TRUST + "On the current tree the fast path never matches (HEADER_LEN off by one, DESIGN.md 9.2), so the collector harnesses hold "
+             "vacuously today and become meaningful when that constant is corrected. Natively the same questions go to the real handler over a duplex stream.",
+    ),
+    "C06": dict(
+        text="Bounded: two replicas, one update each (SET/DEL/HSET/HDEL, all ordered pairs, three pre-states), symbolic clocks and bytes, deltas "
+             "cross-delivered: both end with the same type, value, field and stamp, and for two writes the survivor carries the greatest stamp; "
+             "observers applying the two deltas in both orders end alike. Not claimed: >= 3 concurrent updates, the executor glue "
+             "(what a node serves vs its replication state), gossip batching.",
+        note=TRUST + "Replication-state level only (ShardReplicaState / ReplicatedValue).",
+    ),
     "C07": dict(
-        text="For all values within the stated bounds (stamps < 2^62, replica ids 0..2, 0-2 byte payloads, per-kind shapes listed per harness) "
-             "ReplicatedValue::merge is commutative, associative and idempotent in everything observable. Bounded exhaustive by SAT; not a proof for unbounded sizes.",
-        note="Trusted: Kani/CBMC/CaDiCaL, container model S1, stubs listed in the evidence. Assumes the reachability invariant "
-             "(inner stamp <= outer stamp; equal stamps => identical register contents, which C08 establishes).",
+        text="Bounded: ReplicatedValue::merge is commutative, associative and idempotent in everything observable for LWW values (stamps < 2^62, "
+             "replicas 0..2, 0-2 byte payloads, tombstones, expiry, rf); thorough tier adds hash values over fields {f,g}, G/PN counters "
+             "(2 replicas, u32 counts), G-sets, OR-sets, vector clocks and the LWW/hash type-mismatch path, each of concrete kind per harness.",
+        note=TRUST + "Assumes the reachability invariant: inner stamp <= outer stamp; equal stamps carry identical registers (established by C08).",
+    ),
+    "C08": dict(
+        text="Inductive step, not histories: from an arbitrary state in which every stored stamp is <= the clock, observing any stamp and then "
+             "writing/deleting yields a stamp strictly greater than everything seen, which wins on a peer holding the observed value "
+             "(register level and ShardReplicaState level, any source replica including the node itself). Not claimed: the checkpoint leg of "
+             "recovery (inside an async actor loop), clock wrap-around beyond 2^62.",
+        note=TRUST,
+    ),
+    "C09": dict(
+        text="Bounded: WalRotator/WalWriter with a model store whose every append (incl. partial), fsync and create may fail: 2 (thorough 3) "
+             "appends with the rotation threshold symbolic, then sync(): every append that returned Ok before a successful sync lies inside the "
+             "fsynced prefix of its file - the obligation the group-commit actor relies on. Not claimed: the async actor loop and its timeouts.",
+        note=TRUST + "Crash model = keep the fsynced prefix of every file.",
+    ),
+    "C10": dict(
+        text="Bounded: WalEntry::decode is total on arbitrary bytes of declared payload length 0,1,3; encode/decode round-trips for payloads "
+             "0,2,4; every proper prefix is rejected; a single-bit flip in length, CRC or payload is rejected or harmless (stamp: known finding); "
+             "WalReader::entries keeps append order incl. header-only entries; truncate_before never deletes a file holding an entry newer than T; "
+             "a damaged file does not hide another file's entries. Not claimed: multi-byte corruptions colliding the CRC, payloads > 4 bytes.",
+        note=TRUST + "Real crc32fast (portable path).",
+    ),
+    "C11": dict(
+        text="Bounded, WAL leg only: an update that exists only in the WAL is replayed whatever the maximum stamps of the listed segments are "
+             "(threshold statements text-extracted from recover_with_wal), and WalReader::entries_after keeps exactly the entries at or above "
+             "the threshold. Not claimed: RecoveryManager::recover itself (segment selection/ordering, checkpoint handling - async over an "
+             "object store with JSON/bincode), idempotence of repeated recovery.",
+        note=TRUST + "Natively the same question is put to the real recover_with_wal over in-memory stores.",
+    ),
+    "C15": dict(
+        text="Bounded: both RESP decoders on templates whose size-determining fields are concrete (type byte, length text from a boundary menu "
+             "incl. -2, -1, 2^31, i64::MAX, u64::MAX, 10^20, empty, non-numeric; buffer length) and all other bytes symbolic: no panic, consumed "
+             "<= buffer, exact frame size, terminator checked, short input = need-more, invalid length = error, pre-allocation bounded, "
+             "parse() consistent with the slice decoder, prefix stability. Not claimed: lengths outside the menu, nesting > 1, encoders.",
+        note=TRUST + "RespCodec is driven through try_parse (hook) for most instances and through parse(BytesMut) in the buffered/prefix harnesses.",
+    ),
+    "C16": dict(
+        text="Bounded: for every command name of the parser tables and every arity 0..4 with arguments of 2 symbolic bytes each (plus keyword "
+             "instances), Command::from_resp and Command::from_resp_zero_copy agree on accept/reject, on the Command (derived PartialEq) and on "
+             "literal error texts. Quick tier runs a sample; thorough runs all. Not claimed: formatted error texts (fmt::format is stubbed), "
+             "arities > 4, longer arguments, redis.call.",
+        note=TRUST,
+    ),
+    "C17": dict(
+        text="Bounded, per operation: on a 4-key world of every type (one key with a TTL), wrong-typed operands and failing arguments "
+             "(overflow, out-of-range index, invalid expiry) reply with an error and leave every key, type, content summary and deadline "
+             "unchanged; read-only operations change nothing. Not claimed: the dispatch match, multi-element partial failure, EVAL.",
+        note=TRUST + "Keyspace is built by direct insertion; operations are called through forwarding hooks.",
+    ),
+    "C18": dict(
+        text="Bounded: bucket hash independent of fold order (2-3 digests) and sound (different pair sets => different hash), key digest sound "
+             "and complete for LWW values, expiry and hash {f} (decided on hasher input streams), state digest independent of map insertion "
+             "order. Not claimed: sync rounds under max_keys_per_sync, CRDT kinds other than LWW/hash.",
+        note=TRUST + "Transparent hasher with stream log; natively real SipHash.",
+    ),
+    "C19": dict(
+        text="Bounded: hash ring over three concrete virtual-node layouts (incl. adjacent vnodes and positions 0 / u64::MAX), 2-4 members x 2 "
+             "vnodes, key position = any u64, rf 1..4: replica list independent of join order, min(rf,n) distinct members, removal changes "
+             "only keys that held the node, gossip targets = replicas minus sender; from_config ids = the other members. Not all layouts.",
+        note=TRUST + "HashRing's two private hash functions are stubbed by position tables under Kani; natively the oracle is swept over 4000 real keys.",
     ),
 }
 
 NA = {
-    "C01": BUILDING, "C03": BUILDING, "C04": BUILDING, "C06": BUILDING, "C08": BUILDING, "C09": BUILDING, "C10": BUILDING,
-    "C11": BUILDING, "C14": BUILDING, "C15": BUILDING, "C16": BUILDING, "C17": BUILDING, "C18": BUILDING, "C19": BUILDING,
     "C02": "quantifies over interleavings of tokio tasks/mailboxes; Kani has no scheduler or concurrency semantics and no bounded encoding of the schedule space is within reach of solver-based checking here (DESIGN.md C02)",
-    "C05": "production MULTI/EXEC lives inside an async connection handler; the simulation twin replays through CommandExecutor::execute, whose dispatch gave no verdict in 4 x 20-25 min (DESIGN.md C05)",
+    "C05": "production MULTI/EXEC lives inside an async connection handler; the simulation twin replays through CommandExecutor::execute on heap-stored Commands, which gave no verdict in 4 x 20-25 min (DESIGN.md C05)",
     "C12": "flush/compact/recover are async fns over an object store with bincode/serde_json between store calls; the cheapest instance gave no verdict in 25/20/15 min in three configurations (DESIGN.md C12)",
     "C13": "same code path and obstacle as C12; the survivor and tombstone rules are inline in the async compact() (DESIGN.md C13)",
+    "C14": "the part of C14 this technique reaches (WAL entry codec: round trip, truncation, single-bit damage) is decided under C10; segment/checkpoint framing with real images and value round trips through bincode/serde_json were not brought to a verdict (DESIGN.md C14, 9.3), so C14 itself is not claimed",
     "C20": "a relation between two whole simulator runs (ChaCha RNG, hash-seeded containers, wall clock); no bounded symbolic encoding within reach (DESIGN.md C20)",
 }
